@@ -305,7 +305,7 @@ namespace avel {
 
         [[nodiscard]]
         AVEL_FINL friend mask operator!=(Vector lhs, Vector rhs) {
-            return mask{_mm512_cmp_pd_mask(lhs.content, rhs.content, _CMP_NEQ_OS)};
+            return mask{_mm512_cmp_pd_mask(lhs.content, rhs.content, _CMP_NEQ_UQ)};
         }
 
         [[nodiscard]]
